@@ -1,6 +1,6 @@
 (* Proofs.NJ: the in-memory head of the repaired code answers like the store (invariant over all
    histories), and the witnesses showing that each repair is needed. *)
-From DV Require Import Base.Prelude Model.NJ Proofs.NJBase.
+From DV Require Import Base.Prelude Model.NJ Proofs.NJBase Gen.Consts.
 From Coq Require Import Sorted Permutation.
 From Coq Require Import ZifyN ZifyNat ZifyBool.
 Local Open Scope N_scope.
@@ -200,7 +200,7 @@ Lemma load_meta_get locked sm k : k < 3 -> mget k (load_meta repaired locked sm)
 Proof.
   intro Hk. unfold load_meta. cbn [v_meta repaired orb].
   assert (C : k = 0 \/ k = 1 \/ k = 2) by lia.
-  unfold k_json_schema, k_schema, k_schema_batch.
+  unfold k_json_schema, k_schema, k_schema_batch, n_nj_JSONSchema, n_nj_NeuSchema, n_nj_NeuSchemaBatch.
   destruct (mget 0 sm) eqn:E0, (mget 1 sm) eqn:E1, (mget 2 sm) eqn:E2;
     repeat rewrite mget_mset; destruct C as [-> | [-> | ->]]; simpl; congruence.
 Qed.
